@@ -598,7 +598,7 @@ theorem ir_scalarMixedMult_eq_model_closed {α : Type} {C : Model.Point.Ctx α} 
     (fun q a => CTIRRefinePointA.PointDouble_computes hw hp hB hdp hdo (enc q.x) (enc q.y) (enc q.z) a)
     (fun q a b => CTIRRefinePointA.PointAdd_computes hw hp hB hap hao (enc q.x) (enc q.y) (enc q.z) a b)
     (fun q a => CTIRRefinePointA.PointSet_computes hw (enc q.x) (enc q.y) (enc q.z) (enc a.x) (enc a.y) (enc a.z))
-    (fun q a => CTIRRefinePointA.Negate_computes hw hp (enc q.x) (enc q.y) (enc q.z) (hp.enc_len q.y) a)
+    (fun q a => CTIRRefinePointA.Negate_computes hw hp (enc q.x) (enc q.y) (enc q.z) (hp.enc_out4 q.y) a)
     (fun x y h => CTIRRefinePointA.NewFromXY_computes hw hp x y (hT x y h).1 (hT x y h).2.1 (hT x y h).2.2.1
       (hT x y h).2.2.2)
   cases h : Model.Curve.scalarMixedMult (Model.Curve.pointOps C) gScalar Pt scalar first second with
